@@ -32,6 +32,9 @@ type world struct {
 	inst     *lmd.VerifInstance
 	backends map[string]*backend.Backend
 	dir      string
+	exporter *lmd.VerifInstance // federated export: the daemon that wrote the snapshot
+	importer *lmd.VerifInstance
+	stopFed  func()
 }
 
 var curWorld *world
@@ -41,6 +44,9 @@ var worldSeq int
 func (w *world) close() {
 	if w == nil {
 		return
+	}
+	if w.stopFed != nil {
+		w.stopFed()
 	}
 	for _, b := range w.backends {
 		b.Close()
@@ -187,6 +193,8 @@ type worldLine struct {
 	FailMode  string          `json:"fail_mode"`
 	CmdReply  *string         `json:"cmd_reply"`
 	Commands  []string        `json:"commands"`
+	Federated bool            `json:"federated"`
+	Which     string          `json:"which"`
 }
 
 func worldOp(out *bufio.Writer, inst **lmd.VerifInstance, op string, raw []byte, scratch string) bool {
@@ -239,11 +247,33 @@ func worldOp(out *bufio.Writer, inst **lmd.VerifInstance, op string, raw []byte,
 		}
 		fmt.Fprintf(os.Stderr, "@start %d\n", line.ID)
 		file := filepath.Join(curWorld.dir, "snapshot.tgz")
+		if line.Federated {
+			src, dst, stop, err := lmd.VerifExportImportFederated(curWorld.inst, curWorld.cfg, file, filepath.Join(curWorld.dir, "fed.sock"))
+			if err != nil {
+				return fail(err.Error())
+			}
+			curWorld.exporter, curWorld.importer, curWorld.stopFed = src, dst, stop
+			*inst = dst
+			res["ok"] = true
+
+			break
+		}
 		imported, err := lmd.VerifExportImport(curWorld.cfg, curWorld.conns, file)
 		if err != nil {
 			return fail(err.Error())
 		}
 		*inst = imported
+		res["ok"] = true
+	case "use":
+		// which of the two daemons of a federated export the following queries go to
+		if curWorld == nil || curWorld.exporter == nil {
+			return fail("no federated export")
+		}
+		if line.Which == "exporter" {
+			*inst = curWorld.exporter
+		} else {
+			*inst = curWorld.importer
+		}
 		res["ok"] = true
 	case "advance":
 		lmd.VerifClockAdvance(line.Seconds)
